@@ -17,22 +17,22 @@ vars == <<c, t, v, b, ph>>
 StaticType == IF b = "static" THEN t ELSE BoxType(b)      \* static type of the global v
 
 Init == c \in Ctxs /\ t \in TypeClasses /\ v \in Vals /\ b \in BoxSet(t) /\ ph = "declared"
-Accept  == ph = "declared" /\ CheckShow(CtxOf(c)[1], StaticType)  /\ ph' = "accepted" /\ UNCHANGED <<c, t, v, b>>
-Reject  == ph = "declared" /\ ~CheckShow(CtxOf(c)[1], StaticType) /\ ph' = "rejected" /\ UNCHANGED <<c, t, v, b>>
-ShowOk   == ph = "accepted" /\ ~ModelR(c, t, v = "zero") /\ ph' = "shown"  /\ UNCHANGED <<c, t, v, b>>
-ShowFail == ph = "accepted" /\ ModelR(c, t, v = "zero")  /\ ph' = "failed" /\ UNCHANGED <<c, t, v, b>>
+Accept  == ph = "declared" /\ CheckShow(AsIs, CtxOf(c)[1], StaticType)  /\ ph' = "accepted" /\ UNCHANGED <<c, t, v, b>>
+Reject  == ph = "declared" /\ ~CheckShow(AsIs, CtxOf(c)[1], StaticType) /\ ph' = "rejected" /\ UNCHANGED <<c, t, v, b>>
+ShowOk   == ph = "accepted" /\ ~ModelR(AsIs, c, t, v = "zero") /\ ph' = "shown"  /\ UNCHANGED <<c, t, v, b>>
+ShowFail == ph = "accepted" /\ ModelR(AsIs, c, t, v = "zero")  /\ ph' = "failed" /\ UNCHANGED <<c, t, v, b>>
 Next == Accept \/ Reject \/ ShowOk \/ ShowFail
 
 \* B => ~R on the model
 ModelAcceptedNeverFails == ~(b = "static" /\ ph = "failed")
 \* R' => ~B on the model
-ModelBoxedFailsOnlyIfRejected == (b # "static" /\ ph = "failed") => ~ModelB(c, t)
+ModelBoxedFailsOnlyIfRejected == (b # "static" /\ ph = "failed") => ~ModelB(AsIs, c, t)
 \* a variable of type any always builds
 ModelAnyBuilds == b = "any" => ph # "rejected"
 
 \* ---- exports (constant level; the LETs make TLC evaluate each sequence once)
 CellSet == Ctxs \X TypeClasses \X Vals
-BadCell(x) == ModelB(x[1], x[2]) /\ ModelR(x[1], x[2], x[3] = "zero")
+BadCell(x) == ModelB(AsIs, x[1], x[2]) /\ ModelR(AsIs, x[1], x[2], x[3] = "zero")
 ASSUME LET S == SetToSeq(CellSet) IN
        ndJsonSerialize("cases.ndjson",
          [i \in 1..Len(S) |-> [id |-> i, ctx |-> S[i][1], type |-> S[i][2], val |-> S[i][3], boxes |-> Boxes(S[i][2])]])
@@ -41,7 +41,7 @@ ASSUME LET S == SetToSeq({x \in CellSet : BadCell(x)}) IN
 ASSUME ndJsonSerialize("model_stats.ndjson",
          <<[cells |-> Cardinality(CellSet),
             contexts |-> Cardinality(Ctxs), type_classes |-> Cardinality(TypeClasses),
-            accepted |-> Cardinality({x \in CellSet : ModelB(x[1], x[2])}),
-            render_fails |-> Cardinality({x \in CellSet : ModelR(x[1], x[2], x[3] = "zero")}),
+            accepted |-> Cardinality({x \in CellSet : ModelB(AsIs, x[1], x[2])}),
+            render_fails |-> Cardinality({x \in CellSet : ModelR(AsIs, x[1], x[2], x[3] = "zero")}),
             accepted_and_fails |-> Cardinality({x \in CellSet : BadCell(x)})]>>)
 =============================================================================
